@@ -184,6 +184,11 @@ fn sparse_unit_phase(rows: &SpRows, ncols: usize, p: u64, q: u64) -> (usize, Vec
 }
 
 pub fn rank_mod_sparse(rows: &SpRows, ncols: usize, q: u64) -> usize {
+    if q == 2 { let sets: Vec<Vec<usize>> = rows.iter().map(|r| r.iter().filter(|(_, v)| v.bit(0)).map(|(c, _)| *c).collect()).collect(); return rank_f2(&sets, ncols) }
+    rank_mod_generic(rows, ncols, q)
+}
+
+pub fn rank_mod_generic(rows: &SpRows, ncols: usize, q: u64) -> usize {
     let (piv, dense) = sparse_unit_phase(rows, ncols, q, q);
     debug_assert!(dense.is_empty());
     piv + rank_mod_u64(dense, q)
@@ -237,6 +242,76 @@ mod tests {
                 let pos: Vec<u32> = vals.into_iter().filter(|v| *v > 0).collect();
                 assert_eq!(pos, valuations(&ds, p), "p = {p}, A = {}", a.show());
             }
+        }
+    }
+}
+
+// ---------------------------------------------------------------------------
+// GF(2): rows as sets of column indices; dynamic shortest-row / lightest-column pivoting
+
+/// rank over F2 of the matrix whose row i has ones exactly in the columns rows[i] (duplicates cancel in pairs)
+pub fn rank_f2(rows: &[Vec<usize>], ncols: usize) -> usize {
+    use std::cmp::Reverse;
+    use std::collections::BinaryHeap;
+    let m = rows.len();
+    let mut a: Vec<Vec<u32>> = rows.iter().map(|r| {
+        let mut v: Vec<u32> = r.iter().map(|c| *c as u32).collect(); v.sort_unstable();
+        let mut out: Vec<u32> = Vec::with_capacity(v.len());
+        for c in v { if out.last() == Some(&c) { out.pop(); } else { out.push(c); } }
+        out
+    }).collect();
+    // column -> rows that may contain it (lazily cleaned)
+    let mut col_rows: Vec<Vec<u32>> = vec![vec![]; ncols];
+    let mut col_cnt: Vec<u32> = vec![0; ncols];
+    for (i, r) in a.iter().enumerate() { for c in r { col_rows[*c as usize].push(i as u32); col_cnt[*c as usize] += 1; } }
+    let mut heap: BinaryHeap<Reverse<(u32, u32)>> = a.iter().enumerate().filter(|(_, r)| !r.is_empty()).map(|(i, r)| Reverse((r.len() as u32, i as u32))).collect();
+    let mut active = vec![true; m];
+    let mut rank = 0usize;
+    let mut tmp: Vec<u32> = vec![];
+    while let Some(Reverse((len, r))) = heap.pop() {
+        let r = r as usize;
+        if !active[r] || a[r].len() as u32 != len { continue }
+        if a[r].is_empty() { active[r] = false; continue }
+        let c = *a[r].iter().min_by_key(|c| col_cnt[**c as usize]).unwrap();
+        let prow = std::mem::take(&mut a[r]);
+        active[r] = false;
+        rank += 1;
+        for cc in &prow { col_cnt[*cc as usize] -= 1; }
+        let targets = std::mem::take(&mut col_rows[c as usize]);
+        for i in targets {
+            let i = i as usize;
+            if !active[i] || a[i].binary_search(&c).is_err() { continue }
+            // a[i] ^= prow (symmetric difference of sorted lists)
+            tmp.clear();
+            let (x, y) = (&a[i], &prow);
+            let (mut p, mut q) = (0, 0);
+            while p < x.len() && q < y.len() {
+                if x[p] < y[q] { tmp.push(x[p]); p += 1; }
+                else if x[p] > y[q] { tmp.push(y[q]); col_rows[y[q] as usize].push(i as u32); col_cnt[y[q] as usize] += 1; q += 1; }
+                else { col_cnt[x[p] as usize] -= 1; p += 1; q += 1; }
+            }
+            tmp.extend_from_slice(&x[p..]);
+            for &cc in &y[q..] { tmp.push(cc); col_rows[cc as usize].push(i as u32); col_cnt[cc as usize] += 1; }
+            std::mem::swap(&mut a[i], &mut tmp);
+            if a[i].is_empty() { active[i] = false; } else { heap.push(Reverse((a[i].len() as u32, i as u32))); }
+        }
+    }
+    rank
+}
+
+#[cfg(test)]
+mod f2_tests {
+    use super::*;
+    #[test]
+    fn rank_f2_agrees_with_the_generic_routine() {
+        let mut seed = 777u64;
+        let mut rnd = || { seed = seed.wrapping_mul(6364136223846793005).wrapping_add(1442695040888963407); (seed >> 33) as usize };
+        for t in 0..400 {
+            let (m, n) = (1 + rnd() % 30, 1 + rnd() % 30);
+            let dens = 1 + rnd() % 6;
+            let rows: Vec<Vec<usize>> = (0..m).map(|_| (0..n).filter(|_| rnd() % 8 < dens).collect()).collect();
+            let sp: SpRows = rows.iter().map(|r| r.iter().map(|c| (*c, BigInt::from(1))).collect()).collect();
+            assert_eq!(rank_f2(&rows, n), rank_mod_generic(&sp, n, 2), "case {t}");
         }
     }
 }
